@@ -28,7 +28,8 @@ LEVEL_TEXT = ("outcome sequences of length <=3 over {return, Exception, BaseExce
               "exploration over driver timings.")
 LEVEL_NOTE = ("virtual time; driver calls are placed at instants that never coincide with run events (exact coincidences "
               "are genuine races); a task added to the service after stop()'s cancel() is recorded as a separate "
-              "scenario")
+              "scenario"
+              " Build phase: restart limit on the actor's own class or instance; helper tier (cancel_and_await incl. a second caller), context-manager tier, groups whose actors share a name.")
 RULE = ("cases = (run scripts, limit, delay, driver script); distinct = canonical JSON; non-trivial = >=2 runs entered or "
         "an external call during a run / during the restart delay")
 REQUIRED_BUCKETS = ["outcome:ret", "outcome:exc", "outcome:base", "outcome:block", "restart-observed",
